@@ -191,6 +191,11 @@ func (en *Engine) functionsFor(prop string) []string {
 				serves = serves || hasProp(cl.Props, prop)
 			}
 		}
+		for _, cls := range ct.AtCall {
+			for _, cl := range cls {
+				serves = serves || hasProp(cl.Props, prop)
+			}
+		}
 		for _, ec := range ct.Effects {
 			serves = serves || hasProp(ec.Props, prop) || (len(ec.Props) == 0 && hasProp(ct.Props, prop))
 		}
@@ -597,7 +602,11 @@ func runCheck(opts checkOpts) (int, map[string]any) {
 	}
 	sort.Strings(coverFails)
 	cov["unreachable_return_sites_under_contract"] = deadReturns
-	if len(coverFails) > 0 {
+	if len(coverFails) > 0 && violations > 0 {
+		// a contract that can no longer be evaluated against a changed signature makes its function
+		// vacuous; the failed obligations elsewhere are the verdict, this is their side effect
+		fmt.Println("NOTE: besides the violations below some contracts are vacuous on the current code:", truncate(strings.Join(coverFails, "; "), 600))
+	} else if len(coverFails) > 0 {
 		return fail("vacuity: contradictory assumptions, or return sites that no input reaches (declare dead code under the contract with 'deadreturn'): " + strings.Join(coverFails, "; "))
 	}
 	sort.Slice(slows, func(i, j int) bool { return slows[i].t > slows[j].t })
